@@ -114,7 +114,108 @@ func c05Gen(tier string, seed int64) []fw.Case {
 		dd := d
 		cases = append(cases, fw.Case{Name: fmt.Sprintf("%s/%s/frame-lock-timeout", d.Role, paramsKey(d.Params)), Desc: dd, Run: func(r *fw.R) { c05LockTimeout(r, dd) }})
 	}
+	// targeted: a streaming writer is abandoned in the middle of its message - its context ends while no frame
+	// write is in flight, its later Write / Close calls fail with the connection still open - while other
+	// goroutines write: their messages must not start inside the unfinished one
+	for i := 0; i < tierPick(tier, 24, 400); i++ {
+		d := c05Desc{Seed: rng.U64(), Role: bothRoles[i%2], Params: allParams[(i/2)%len(allParams)], Thr: []int{0, 1 << 20}[i%2], Closer: "writer-abandoned-mid-message", Peer: "raw", Writers: 2, PerW: 1}
+		dd := d
+		cases = append(cases, fw.Case{Name: fmt.Sprintf("%s/%s/abandoned-writer", d.Role, paramsKey(d.Params)), Desc: dd, Run: func(r *fw.R) { c05AbandonedWriter(r, dd) }})
+	}
 	return cases
+}
+
+// c05AbandonedWriter: W1 streams the beginning of a message (at least one frame is on the wire), its context
+// is cancelled while it is between two calls, it then calls Write and Close again (they fail, or - the choice
+// between a free lock and an ended context is the scheduler's - succeed); other goroutines write with short
+// contexts of their own meanwhile and afterwards.
+func c05AbandonedWriter(r *fw.R, d c05Desc) {
+	r.SetSample(d)
+	setPerturb(d.Seed, 0)
+	c, libEnd, peerEnd, err := libConn(d.Role, d.Params, d.Thr, xport.Plan{}, xport.Plan{})
+	if err != nil {
+		r.Violate("C05/attach-failed", err.Error(), "")
+		return
+	}
+	defer c.CloseNow()
+	defer peerEnd.Close()
+	peer := newRawPeer(peerEnd, d.Role, d.Params, d.Seed)
+	peer.AutoPong = true
+	peer.Start()
+	base, cancelAll := context.WithTimeout(context.Background(), 60*time.Second)
+	defer cancelAll()
+	go func() {
+		for {
+			if _, _, err := c.Read(base); err != nil {
+				return
+			}
+		}
+	}()
+	rng := fw.NewRand(d.Seed)
+	what := fmt.Sprintf("%s %s thr=%d abandoned-writer", d.Role, paramsKey(d.Params), d.Thr)
+	ctx1, cancel1 := context.WithCancel(base)
+	defer cancel1()
+	w, err := c.Writer(ctx1, websocket.MessageBinary)
+	body := tagPayload(1, 0, 30000)
+	if err == nil {
+		_, err = w.Write(body[:9000+rng.Intn(9000)])
+	}
+	if err != nil {
+		r.Violate("C05/write-failed", what+": "+err.Error(), "")
+		return
+	}
+	var wg sync.WaitGroup
+	other := func(id uint16, n int) {
+		defer wg.Done()
+		orng := fw.NewRand(d.Seed + uint64(id))
+		for k := 0; k < n; k++ {
+			octx, oc := context.WithTimeout(base, time.Duration(2+orng.Intn(20))*time.Millisecond)
+			c.Write(octx, websocket.MessageBinary, tagPayload(id, uint32(k), 100+200*k))
+			oc()
+		}
+	}
+	if rng.Bool() {
+		wg.Add(1)
+		go other(2, 3) // queued for its turn when the writer is abandoned
+		time.Sleep(time.Millisecond)
+	}
+	cancel1()
+	failed := 0
+	for k := 0; k < 4; k++ {
+		var err error
+		if k%2 == 0 {
+			_, err = w.Write([]byte("x"))
+		} else {
+			err = w.Close()
+			if err == nil {
+				break
+			}
+		}
+		if err != nil {
+			failed++
+		}
+	}
+	stillOpen := !peerEnd.PeerClosed()
+	wg.Add(1)
+	go other(3, 3)
+	wg.Wait()
+	time.Sleep(5 * time.Millisecond)
+	c.CloseNow()
+	peer.WaitEnd(10 * time.Second)
+	conf := &wire.Conform{FromClient: d.Role == RoleClient, P: d.Params}
+	conf.Write(libEnd.Sent())
+	for _, v := range conf.Violations {
+		r.Violate("C05/nonconformant-stream/"+vioClass(v), fmt.Sprintf("%s (%d calls on the abandoned writer failed; connection still open afterwards: %v): %s", what, failed, stillOpen, v), "frames: "+tail(string(conf.FrameLog), 100))
+	}
+	for i, m := range conf.Messages {
+		if id, _, err := checkTagged(m.Data); err != nil && id != 1 { // (the abandoned message itself may have been completed with other bytes)
+			r.Violate("C05/mixed-or-corrupt-message/"+comprKey(m.Compressed), fmt.Sprintf("%s: message %d: %v", what, i, err), "")
+		}
+	}
+	if failed > 0 && stillOpen {
+		r.Count("writers_abandoned_mid_message_with_the_connection_open", 1)
+	}
+	r.Key("%s/%s/abandoned-writer/failed-calls=%d/open-after=%v", d.Role, paramsKey(d.Params), min(failed, 2), stillOpen)
 }
 
 // c05LockTimeout: W1 streams a message; a Ping holds the frame lock while blocked in the transport; W1's
